@@ -4,7 +4,8 @@
    Base64 uninterpreted; TLC enumerates key sizes x record shapes x what was done to the
    hostname (17 kinds: byte changed in header / iv / splitter / ciphertext / tag, other key,
    swapped iv, short / long iv, missing parts, bad base64, extra NUL, ...) and checks that a
-   stage-by-stage decoder meets the statement on all 918 cases (a decoder without the
+   stage-by-stage decoder meets the statement on all 2754 cases (key bytes random / all Base64
+   alphabet characters / such text ending in "==") (a decoder without the
    authenticity stage does not); the cases are exported.
 2. The harness owns a Floodgate-style reference encoder / decoder over crypto/aes,
    cipher.NewGCM, encoding/base64; it builds every case for the real ReadHostname, replaces
@@ -23,7 +24,7 @@ META = {
     "category": "model_checking",
     "text": "Floodgate.tla specifies the hostname envelope with AES-GCM and Base64 abstract but authentic; TLC checks a "
             "staged decoder against the statement on every combination of key size, record shape and 17 kinds of "
-            "alteration, and exports the 918 cases. A harness-owned Floodgate-style encoder/decoder (Go standard library "
+            "alteration, and exports the 2754 cases (3 key sizes x 3 kinds of key bytes). A harness-owned Floodgate-style encoder/decoder (Go standard library "
             "only) builds each case for the real ReadHostname, sweeps single-byte replacements over valid hostnames, and "
             "reads back the real WriteHostname output; TLC validates the recorded outcomes and field values.",
     "design_ref": "DESIGN.md section 4, C39",
@@ -68,9 +69,11 @@ def run(ctx):
         ev = bad["ev"]
         if ev == "read":
             c = bad["case"]
-            key = "read:%s%s:%s" % (c["mut"], "+wrongkey" if c["wrongkey"] and c["mut"] == "none" else "", bad["out"])
-            desc = "ReadHostname on a hostname with alteration %r (key %d bytes, wrong key %s, record %s) gave %s %s" % (
-                c["mut"], c["ks"], c["wrongkey"], c["shape"], bad["out"], bad.get("msg", ""))
+            key = "read:%s%s%s:%s" % (c["mut"], "+wrongkey" if c["wrongkey"] and c["mut"] == "none" else "",
+                                      "+key-" + c["keykind"] if c["keykind"] != "random" and c["mut"] in ("none", "port") else "",
+                                      bad["out"])
+            desc = "ReadHostname on a hostname with alteration %r (key %d bytes %s, wrong key %s, record %s) gave %s %s" % (
+                c["mut"], c["ks"], c["keykind"], c["wrongkey"], c["shape"], bad["out"], bad.get("msg", ""))
         elif ev == "mut":
             key = "bytechange:%s:%s" % (bad["region"], bad["out"])
             desc = "hostname with byte %d at position %d (%s part) gave %s %s" % (
